@@ -5,6 +5,7 @@ import os
 import random
 import re
 import subprocess
+import time
 import traceback
 from fractions import Fraction
 
@@ -836,6 +837,7 @@ def run(ctx):
             ctx.log(traceback.format_exc())
             ctx.fail_input("Thermodynamics raised %r during a history on one object" % ex,
                            dict(kind="raise", case=case), key="raises:history")
+    ctx.log("stub models: %d direct, %d with certified evaluation" % (ndirect, len(files)))
     # compile the certified evaluations, at most 8 at a time
     pending = list(files)
     running = []
@@ -874,11 +876,15 @@ def run(ctx):
                 ["timeout", "900", "coqc"] + ctx.coq_args() + [p], cwd=ctx.bdir,
                 stdout=subprocess.PIPE, stderr=subprocess.PIPE, text=True)))
         reap(*running.pop(0))
+    ctx.log("certified evaluations done")
     # --- traced potentials ------------------------------------------------------------
     for it in range(ctx.n(2, 10)):
         trng = random.Random(rng.random())
+        t_it = time.time()
         try:
             traced_model(ctx, trng, variant=it % 2)
+            ctx.log("traced model %d (variant %d) done in %.1fs" % (it, it % 2,
+                                                                    time.time() - t_it))
         except Exception as ex:
             ctx.log("traced model raised", traceback.format_exc())
             ctx.fail_input("tracing / evaluating a traced model raised %r" % ex,
